@@ -7,8 +7,10 @@
 V=$(cd "$(dirname "$0")/.." && pwd)
 cd "$V"
 SEEDS=${SEEDS:-20260930}
+ONLY=${ONLY:-.}        # ONLY='^C0[1-7]' restricts the run to the matching ids (several runs side by side on snapshots)
 for d in seeded/*/; do
   id=$(basename $d); prop=${id%%-*}
+  echo "$id" | grep -Eq "$ONLY" || continue
   kinds=""; missed=""
   for sd in $SEEDS; do
     res=$(VERIF_SEED=$sd ./gen/try_seeded.sh $V/$d/patch.diff $prop 2>&1 | head -1)
